@@ -40,6 +40,7 @@ import (
 	"github.com/openbao/openbao/sdk/v2/logical"
 	"github.com/openbao/openbao/v2/internal/audit"
 	auditFile "github.com/openbao/openbao/v2/internal/builtin/audit/file"
+	auditSocket "github.com/openbao/openbao/v2/internal/builtin/audit/socket"
 	"github.com/openbao/openbao/v2/internal/command/server"
 	"github.com/openbao/openbao/v2/internal/helper/namespace"
 )
@@ -98,6 +99,10 @@ type c11World struct {
 	reqN    int
 	tag     string
 
+	// atBackend, when set, is evaluated on the handler's goroutine at handler entry (device-fault monitor:
+	// "does any device hold the request entry right now?"); its answer is kept in the backend event
+	atBackend func(reqID string) string
+
 	// what the recording backends answer with (set per case)
 	respData  map[string]any
 	listKeys  []string
@@ -112,6 +117,16 @@ func (w *c11World) add(e c11Event) int64 {
 	e.Seq = w.seq
 	w.events = append(w.events, e)
 	return e.Seq
+}
+
+func (w *c11World) handlerNote(reqID string) string {
+	w.mu.Lock()
+	h := w.atBackend
+	w.mu.Unlock()
+	if h == nil {
+		return ""
+	}
+	return h(reqID)
 }
 
 func (w *c11World) outcome(dev, phase string) int {
@@ -277,7 +292,7 @@ func (b *c11Backend) HandleRequest(ctx context.Context, req *logical.Request) (*
 	case logical.RollbackOperation, logical.RevokeOperation, logical.RenewOperation:
 		return nil, nil
 	}
-	b.w.add(c11Event{Kind: "backend", Mount: b.name, ReqID: req.ID, Path: req.Path, Op: string(req.Operation)})
+	b.w.add(c11Event{Kind: "backend", Mount: b.name, ReqID: req.ID, Path: req.Path, Op: string(req.Operation), Note: b.w.handlerNote(req.ID)})
 	w := b.w
 	w.mu.Lock()
 	data, keys, writeNil, meta := w.respData, w.listKeys, w.writeNil, w.loginMeta
@@ -359,7 +374,7 @@ func (p *c11Proxy) HandleRequest(ctx context.Context, req *logical.Request) (*lo
 	switch req.Operation {
 	case logical.RollbackOperation, logical.RevokeOperation, logical.RenewOperation:
 	default:
-		p.w.add(c11Event{Kind: "backend", Mount: p.name, ReqID: req.ID, Path: req.Path, Op: string(req.Operation)})
+		p.w.add(c11Event{Kind: "backend", Mount: p.name, ReqID: req.ID, Path: req.Path, Op: string(req.Operation), Note: p.w.handlerNote(req.ID)})
 	}
 	return p.Backend.HandleRequest(ctx, req)
 }
@@ -381,7 +396,7 @@ func c11Boot(t *testing.T, r *kit.Result, k int, withFile string) *c11World {
 	conf := &CoreConfig{
 		RawConfig:     &server.Config{UnsafeAllowAPIAuditCreation: true},
 		Logger:        hclog.NewNullLogger(),
-		AuditBackends: map[string]audit.Factory{"verifdev": w.deviceFactory, "file": auditFile.Factory},
+		AuditBackends: map[string]audit.Factory{"verifdev": w.deviceFactory, "file": auditFile.Factory, "socket": auditSocket.Factory},
 		LogicalBackends: map[string]logical.Factory{"verifrec": func(context.Context, *logical.BackendConfig) (logical.Backend, error) {
 			return &c11Backend{w: w, name: "vrec/", typ: logical.TypeLogical}, nil
 		}},
@@ -606,7 +621,24 @@ func c11GenData(rng *kit.Rand, where string, exemptKey, otherSideExemptKey strin
 		secs = append(secs, c11Sec{Where: where + "." + path, Value: v, Canary: c, Exempt: exempt})
 		return v
 	}
+	// digit-only secrets (one-time codes, PINs, epoch-like numbers): no room for a canary, so the
+	// complete JSON string token identifies them
+	d := func(path string, width int, sign string) string {
+		b := make([]byte, width)
+		for i := range b {
+			b[i] = byte('0' + rng.Intn(10))
+		}
+		v := sign + string(b)
+		secs = append(secs, c11Sec{Where: where + "." + path, Value: v, Canary: `"` + v + `"`})
+		return v
+	}
 	m := map[string]any{"value": s("value", false), "n": rng.Intn(100), "flag": true}
+	if rng.Chance(2, 3) {
+		m["otp"] = d("otp", 8, "")
+	}
+	if rng.Chance(1, 3) {
+		m["codes"] = []any{d("codes[0]", 6, "0"), map[string]any{"epoch": d("codes[1].epoch", 9, "1"), "adjust": d("codes[1].adjust", 7, "-")}}
+	}
 	if rng.Chance(1, 2) {
 		// a key exempted for the *other* half of the exchange is not exempt here
 		m[otherSideExemptKey] = s(otherSideExemptKey, false)
